@@ -23,8 +23,10 @@ DEV_OFF = {"DropOrder": '"reverse"', "ResetCounterOnInstall": "TRUE", "MprotectS
 JUMP_FLAVOURS = ["raw", "rawfn", "closure", "fake", "unchecked"]
 
 
-def hist_to_scenario(hist, sid, pool, nf, diff):
-    """TLC behaviour (list of API-level records) -> harness scenario."""
+def hist_to_scenario(hist, sid, pool, nf, diff, reuse_sites=False):
+    """TLC behaviour (list of API-level records) -> harness scenario.  With reuse_sites the model's
+    site number is the real fake! expansion site (the same source line evaluated again in a later
+    lifetime, C07); otherwise every installation gets a site of its own."""
     lives, cur, site = [], None, 0
     ninst = 0
     for h in hist:
@@ -41,7 +43,7 @@ def hist_to_scenario(hist, sid, pool, nf, diff):
                   "fault": h["fault"], "n": h["n"], "site": 0}
             if h["n"] >= 0:
                 site += 1
-                st["site"] = site
+                st["site"] = h["site"] if reuse_sites else site
                 st["flavour"] = "counted"
             elif h["kind"] == "bool":
                 st["flavour"] = "bool"
@@ -50,6 +52,10 @@ def hist_to_scenario(hist, sid, pool, nf, diff):
             cur["steps"].append(st)
         elif a == "Panic":
             cur["steps"].append({"op": "panic"})
+        elif a == "Call":
+            cur["steps"].append({"op": "call", "f": int(h["f"][1:]), "match": h["match"]})
+        elif a == "CallUnwind":
+            cur["steps"].append({"op": "call_unwind", "f": int(h["f"][1:]), "match": h["match"]})
         elif a == "End":
             cur = None
     return {"id": sid, "pool": pool, "nf": nf, "diff": diff, "lives": lives}
@@ -61,6 +67,8 @@ def history_key(hist):
         a = h["act"]
         if a == "Install":
             parts.append("I(%s,%s,%s,n=%s,%s,%s)" % (h["f"], h["kind"], h["fake"], h["n"], h["gate"], h["fault"]))
+        elif a in ("Call", "CallUnwind"):
+            parts.append("%s(%s,%s)" % (a, h["f"], "match" if h["match"] else "nomatch"))
         elif a in ("Panic", "Drop", "New"):
             parts.append(a)
     return " ".join(parts)
@@ -73,7 +81,7 @@ def compare_replay(hist, events, nf):
     calls = []
     ev_i = 0
     evs = [e for e in events if e["ev"] in ("Call", "InstallEnd", "DropEnd", "ChildExit", "Acquire")]
-    exp = [h for h in hist if h["act"] in ("Probe", "InstallOk", "InstallPanic", "End", "VerifyPanic")]
+    exp = [h for h in hist if h["act"] in ("Probe", "InstallOk", "InstallPanic", "End", "VerifyPanic", "Call", "CallUnwind")]
     pending_verify = None
     after_end = False
     # a trampoline allocated by an installation that then fails in mprotect is never released
@@ -96,6 +104,18 @@ def compare_replay(hist, events, nf):
                 else:
                     bad.append(("C02", "while installed calls answered by %s, specification says %s" % (got, h["out"])))
             after_end = False
+        elif a == "Call":
+            while ev_i < len(evs) and evs[ev_i]["ev"] != "Call":
+                ev_i += 1
+            if ev_i < len(evs):
+                if evs[ev_i]["res"] != h["out"]:
+                    bad.append(("C06", "call answered %s, specification says %s" % (evs[ev_i]["res"], h["out"])))
+                ev_i += 1
+        elif a == "CallUnwind":
+            # the call must not return: if it did, the harness logged a Call event
+            if ev_i < len(evs) and evs[ev_i]["ev"] == "Call" and evs[ev_i].get("after_unwind_call"):
+                bad.append(("C06", "call returned %s, specification says it panics (%s)" % (evs[ev_i]["res"], h["out"])))
+                ev_i += 1
         elif a in ("InstallOk", "InstallPanic"):
             while ev_i < len(evs) and evs[ev_i]["ev"] != "InstallEnd":
                 ev_i += 1
@@ -177,17 +197,30 @@ def lifecycle_check(prop, tier):
                        "memory watch covers entry slots (32 bytes), owned trampolines and all r-x file mappings",
                        "TLC, the TLA+ modules in /verif/spec, the Linux kernel"]
     lifecycle_models(run, tier)
-    cfg = "MC_LifecycleApi_q" if tier == "quick" else "MC_LifecycleApi_t"
+    gen = {"C05": ("c5q", "c5t"), "C07": ("c7q", "c7t"), "C06": ("c6q", "c6t")}.get(prop, ("q", "t"))
+    cfg = "MC_LifecycleApi_" + (gen[0] if tier == "quick" else gen[1])
     hists, gr = gen_behaviours(cfg, timeout=3000)
+    if prop == "C05":
+        # "repeated for many consecutive lifetimes": lifetimes are independent in the model, so the
+        # concatenation of behaviours is a behaviour; run them again chained in one process
+        rnd = vlib.rnd("chain")
+        singles = [h for h in hists]
+        k = 0
+        while k < len(singles):
+            chain = []
+            for h in singles[k:k + 8]:
+                chain += h
+            hists.append(chain)
+            k += 8
     run.models.append({"module": "MC_LifecycleApi", "cfg": cfg, "distinct": gr["distinct"], "generated": gr["generated"],
                        "behaviours": len(hists)})
     run.states += gr["distinct"]
     run.transitions += gr["generated"]
     vlib.build_harness()
-    nf = 2
+    nf = 2 if any(x.get("f") == "f2" for h in hists for x in h) or prop in ("C02", "C03", "C12", "C17") else 1
     scen = []
     for i, h in enumerate(hists, 1):
-        scen.append(hist_to_scenario(h, i, "rust", nf, diff=(prop == "C03" or i % 7 == 0)))
+        scen.append(hist_to_scenario(h, i, "rust", nf, diff=(prop == "C03" or i % 7 == 0), reuse_sites=(prop == "C07")))
     groups, order, _ = vlib.run_harness("lifecycle", scen, "lifecycle_" + prop)
     # spec -> impl
     nviol = 0
@@ -199,7 +232,8 @@ def lifecycle_check(prop, tier):
         else:
             run.evaluations += 1
         bad = compare_replay(h, evs, nf)
-        mine = [b for b in bad if b[0] == prop or (b[0] == "CRASH" and prop in ("C02", "C05"))]
+        mine = [b for b in bad if b[0] == prop or (b[0] == "CRASH" and prop in ("C02", "C05"))
+                or (prop == "C07" and b[0] == "C06")]
         if mine:
             nviol += 1
             run.violation("%s history=%s" % (prop, key), {"behaviour": h, "scenario": scen[i - 1], "mismatch": mine,
@@ -342,9 +376,186 @@ def placement_check(prop, tier):
     return run.finish()
 
 
+# =============================================================== allocator (C11)
+
+def alloc_scenarios(tier):
+    rnd = vlib.rnd("alloc")
+    scen = []
+    bases = [0x10000000, 0x1000, 0x3000, 0x7fff000, 0x8000000, 0x8001000, 0x7e0000000000]
+    offs = [0, 64, 4090]
+    frees = [[], [-32768], [32768], [-32767], [32767], [-1], [1], [-32768, 32768], [5, -5], [-32769], [32769], None]
+    occs = [dict(occupied=0), dict(occupied=2, elsewhere_delta=40000, occ_budget=3),
+            dict(occupied=2, elsewhere_delta=77, occ_budget=3), dict(occupied=1, occ_budget=2),
+            dict(occupied=2, elsewhere_delta=-32768, occ_budget=1), dict(occupied=2, elsewhere_delta=32768, occ_budget=1)]
+    allc = []
+    for b in bases:
+        for off in offs:
+            for fr in frees:
+                for oc in occs:
+                    sc = dict(func_page=b, off=off, tramp_delta_pages=0, disp=0)
+                    if fr is None:
+                        if oc["occupied"] != 0:
+                            continue
+                        sc["dictate"] = False
+                    else:
+                        sc["free_deltas"] = fr
+                        sc.update(oc)
+                    allc.append(sc)
+    if tier == "quick":
+        rnd.shuffle(allc)
+        keep = allc[:170]
+        # always keep the edge layouts
+        for sc in allc[170:]:
+            if sc.get("free_deltas") in ([-32768], [32768], []) and sc["func_page"] in (0x10000000, 0x1000) and sc.get("occupied") == 0:
+                keep.append(sc)
+        allc = keep
+    for k, sc in enumerate(allc, 1):
+        sc["id"] = k
+        if k % 5 == 0:
+            sc["flavour"] = "raw"
+            sc["fake_abs"] = 0x300000000 + 4096 * (k % 97)
+        else:
+            sc["flavour"] = "bool"
+            sc["boolv"] = k % 2
+        scen.append(sc)
+    return scen
+
+
+def alloc_check(prop, tier):
+    run = Run(prop, tier)
+    run.rule = ("layouts = (target page incl. below 128 MiB, offset in page) x (free set: empty, single page at either extreme / "
+                "next to the extremes / adjacent / just outside, pairs, everything free) x (kernel answer to an occupied hint: fail, "
+                "a page outside the window, a page inside, far away); enforced on the real allocator through the interposed mmap; "
+                "Mmap/Munmap/Installed events validated by TLC (Trace_Patch, Props={C11}); non-trivial = executed (not skipped)")
+    run.assumptions = ["the interposed mmap policy stands in for the kernel's placement decisions", "x86-64 only natively; the arm64 encoder edge is covered by the simulated run of C15"]
+    for cfg in (["MC_Alloc_q"] if tier == "quick" else ["MC_Alloc_q", "MC_Alloc_t"]):
+        r = tlc.check("MC_Alloc", cfg, workers=TLC_WORKERS, timeout=3000)
+        run.add_model(r, required_actions=("Try", "Exhausted"))
+        if r["violation"]:
+            run.design_violation(r)
+    vlib.build_harness()
+    scen = alloc_scenarios(tier)
+    groups, order, _ = vlib.run_harness("placement", scen, "alloc_" + prop, timeout=3000)
+    cfgp = tlc.make_cfg("Trace_Patch", {"Props": '{"C11", "ALL"}'}, "Trace_Patch_" + prop)
+    live = []
+    outcomes = {"ok": 0, "panic": 0}
+    for sc in scen:
+        evs = groups.get(sc["id"], [])
+        if any(e["ev"] == "Note" and e.get("what") == "skipped" for e in evs):
+            run.evaluations += 1
+            continue
+        live.append(sc)
+        run.note_case(json.dumps({k: sc[k] for k in sc if k != "id"}, sort_keys=True))
+        inst = next((e for e in evs if e["ev"] == "Installed"), None)
+        if inst:
+            outcomes[inst["outcome"]] = outcomes.get(inst["outcome"], 0) + 1
+    if outcomes["ok"] == 0 or outcomes["panic"] == 0:
+        raise ToolError("vacuity guard: allocator layouts produced outcomes %s" % outcomes)
+    tv = tlc.validate_traces("Trace_Patch", cfgp, [(sc["id"], groups.get(sc["id"], [])) for sc in live], WORK,
+                             "trace_" + prop, timeout=3000)
+    run.traces += len(tv["accepted"])
+    run.states += tv["states"]
+    run.transitions += tv["transitions"]
+    run.extra["layouts"] = {"generated": len(scen), "executed": len(live), "accepted": len(tv["accepted"]), "outcomes": outcomes}
+    byid = {sc["id"]: sc for sc in scen}
+    for sid in tv["ids"]:
+        if sid not in tv["accepted"]:
+            evs = groups.get(sid, [])
+            reached, total = tv["progress"][sid]
+            sc = byid[sid]
+            key = "C11 isa=x86_64 free=%s occupied=%s else=%s page_off=%s base=%#x" % (
+                sc.get("free_deltas"), sc.get("occupied"), sc.get("elsewhere_delta"), sc["off"], sc["func_page"])
+            run.violation(key, {"scenario": sc, "trace_rejected_at": reached,
+                                "first_unmatched_event": evs[reached] if reached < len(evs) else None,
+                                "events": [e for e in evs if e["ev"] in ("Place", "Mmap", "Munmap", "Installed", "Called", "ChildExit")][-30:]})
+    for sc in live[:3]:
+        run.sample({"layout": sc, "mmap_events": [e for e in groups.get(sc["id"], []) if e["ev"] in ("Mmap", "Munmap")][:6]})
+    return run.finish()
+
+
+# =============================================================== call budget (C06)
+
+def times_check(prop, tier):
+    run = Run(prop, tier)
+    run.rule = ("(a) MC_Times: all interleavings of 3 callers x scripts of matching/non-matching calls against N; (b) sequential: every "
+                "behaviour of MC_LifecycleApi_c6 (counted fakes, explicit matching / rejected calls, caught and unwinding) replayed on "
+                "real fake! fakes; (c) concurrent: k calls over up to 16 threads, CallStart/CallEnd traces linearised by TLC "
+                "(Trace_Times); distinct = distinct (N, k_match, k_nomatch, threads) / history keys")
+    run.assumptions = ["log order of CallStart/CallEnd respects real time (sequence numbers taken under the event lock)"]
+    for cfg in (["MC_Times_q0", "MC_Times_q1", "MC_Times_q"] if tier == "quick" else ["MC_Times_q0", "MC_Times_q1", "MC_Times_q", "MC_Times_t"]):
+        r = tlc.check("MC_Times", cfg, workers=TLC_WORKERS, timeout=3000)
+        run.add_model(r, required_actions=("FetchAdd", "Reject"))
+        if r["violation"]:
+            run.design_violation(r)
+    # (b) sequential replay through the lifecycle machinery
+    hists, gr = gen_behaviours("MC_LifecycleApi_c6q" if tier == "quick" else "MC_LifecycleApi_c6t", timeout=3000)
+    run.states += gr["distinct"]
+    run.transitions += gr["generated"]
+    vlib.build_harness()
+    nf = 2 if any(x.get("f") == "f2" for h in hists for x in h) else 1
+    scen = [hist_to_scenario(h, i, "rust", nf, diff=False) for i, h in enumerate(hists, 1)]
+    groups, order, _ = vlib.run_harness("lifecycle", scen, "lifecycle_C06")
+    for i, h in enumerate(hists, 1):
+        key = history_key(h)
+        run.note_case(key)
+        bad = [b for b in compare_replay(h, groups.get(i, []), nf) if b[0] in ("C06", "CRASH")]
+        if bad:
+            run.violation("C06 history=%s" % key, {"behaviour": h, "scenario": scen[i - 1], "mismatch": bad})
+    cfgp = tlc.make_cfg("Trace_Api", {"Props": '{"C06", "ALL"}'}, "Trace_Api_C06")
+    tv = tlc.validate_traces("Trace_Api", cfgp, [(i, groups.get(i, [])) for i in range(1, len(hists) + 1)], WORK, "trace_C06", timeout=3000)
+    run.traces += len(tv["accepted"])
+    run.states += tv["states"]
+    run.transitions += tv["transitions"]
+    for sid in tv["ids"]:
+        if sid not in tv["accepted"]:
+            reached, total = tv["progress"][sid]
+            evs = groups.get(sid, [])
+            run.violation("C06 history=%s" % history_key(hists[sid - 1]),
+                          {"behaviour": hists[sid - 1], "trace_rejected_at": reached,
+                           "first_unmatched_event": evs[reached] if reached < len(evs) else None})
+    run.sample({"behaviour": hists[len(hists) // 2]})
+    # (c) concurrent rounds
+    rnd = vlib.rnd("times")
+    rounds = []
+    ns = [0, 1, 2, 7, 64] if tier == "quick" else [0, 1, 2, 3, 7, 16, 64, 1000]
+    reps = 3 if tier == "quick" else 40
+    for n in ns:
+        ks = sorted(set([0, 1, max(0, n - 1), n, n + 1, n + 2] + [rnd.randrange(0, n + 3) for _ in range(2)]))
+        for k in ks:
+            for rep in range(reps):
+                th = rnd.choice([1, 2, 3, 4, 8, 16])
+                rounds.append({"id": len(rounds) + 1, "n": n, "k_match": k, "k_nomatch": rnd.choice([0, 0, 1, 3]),
+                               "threads": th, "site": len(rounds) % 24})
+    tgroups, torder, _ = vlib.run_harness("times", rounds, "times_C06", timeout=3000)
+    tv2 = tlc.validate_traces("Trace_Times", "Trace_Times", [(r["id"], tgroups.get(r["id"], [])) for r in rounds], WORK,
+                              "trace_times", timeout=3000)
+    run.traces += len(tv2["accepted"])
+    run.states += tv2["states"]
+    run.transitions += tv2["transitions"]
+    run.extra["concurrent_rounds"] = {"rounds": len(rounds), "accepted": len(tv2["accepted"]),
+                                      "events": sum(len(tgroups.get(r["id"], [])) for r in rounds), "tlc_states": tv2["states"]}
+    byid = {r["id"]: r for r in rounds}
+    for r in rounds:
+        run.note_case("conc n=%s km=%s kn=%s th=%s" % (r["n"], r["k_match"], r["k_nomatch"], r["threads"]))
+    for sid in tv2["ids"]:
+        if sid not in tv2["accepted"]:
+            reached, total = tv2["progress"][sid]
+            evs = tgroups.get(sid, [])
+            r = byid[sid]
+            run.violation("C06 concurrent n=%s k_match=%s k_nomatch=%s threads=%s" % (r["n"], r["k_match"], r["k_nomatch"], r["threads"]),
+                          {"round": r, "trace_rejected_at": reached,
+                           "first_unmatched_event": evs[reached] if reached < len(evs) else None, "events": evs[-30:]})
+    run.sample({"round": rounds[len(rounds) // 2], "events": tgroups.get(rounds[len(rounds) // 2]["id"], [])[:8]})
+    return run.finish()
+
+
 CHECKS = {
     "C01": placement_check,
+    "C06": times_check,
+    "C11": alloc_check,
     "C02": lifecycle_check,
+    "C05": lifecycle_check,
+    "C07": lifecycle_check,
     "C03": lifecycle_check,
     "C12": lifecycle_check,
     "C17": lifecycle_check,
